@@ -29,6 +29,9 @@ def run(check: Check, repo: Repo, tier: str) -> None:
     check.floor("POP-GUARD", 4, "zero-argument pops in visit()")
     L.sentinel_twins(check, repo)
     L.edit_sentinel(check, repo)
+    L.result_filter(check, repo)
+    L.edit_offset(check, repo)
+    L.parallel_returns(check, repo)
     # controls
     from sa.report import Check as _C
     fx = fixture("pop_controls")
